@@ -57,7 +57,7 @@ def witness_formula(b, name):
     if name == "failure_raised":
         return AND(ended, nobad, sc["g_anyfail"])
     if name == "parallel":
-        return AND(ended, nobad, sc["g_maxinflight"] == bv(min(enc.W, enc.N)))
+        return AND(ended, nobad, sc["g_maxinflight"] == bv(min(enc.W, b.width)))
     if name == "interrupted":
         return AND(ended, nobad, sc["interrupted"])
     if name == "cycle_rejected":
@@ -84,6 +84,22 @@ def run(spec):
         res["detail"] = str(e)
         return res
     K = spec["K"]
+    width = spec["N"]
+    if graph is not None:
+        # largest set of pairwise independent nodes (antichain), brute force (N <= 4)
+        import itertools
+        reach = set(graph)
+        ch = True
+        while ch:
+            ch = False
+            for (a, b_) in list(reach):
+                for (c, d) in list(reach):
+                    if b_ == c and (a, d) not in reach:
+                        reach.add((a, d))
+                        ch = True
+        width = max(len(sub) for r_ in range(1, spec["N"] + 1) for sub in itertools.combinations(range(spec["N"]), r_)
+                    if all((x, y) not in reach and (y, x) not in reach for x in sub for y in sub if x != y))
+    res["width"] = width
     bits = spec["bits"] + SANITY_BITS
     for bump in range(spec.get("max_k_bumps", 3) + 1):
         try:
@@ -95,6 +111,7 @@ def run(spec):
             res["status"] = "unsupported"
             res["detail"] = str(e)
             return res
+        b.width = width
         r, dt, m = b.query(b.unfinished())
         res["queries"].append({"q": "unwinding", "K": K, "result": r, "solver_s": round(dt, 2)})
         if r == "unsat":
@@ -122,7 +139,11 @@ def run(spec):
     for wname in spec.get("witnesses", []):
         r, dt, m = b.query(witness_formula(b, wname))
         res["queries"].append({"q": "witness:" + wname, "K": K, "result": r, "solver_s": round(dt, 2)})
-        if r != "sat" and res["status"] == "ok":
+        if r == "unsat" and wname == "parallel" and res["status"] == "ok":
+            # proven for every schedule: fewer than min(W, width) calls are ever in flight together
+            res["status"] = "parallelism_lost"
+            res["detail"] = f"no schedule has {min(spec['W'], width)} calls in flight at once"
+        elif r != "sat" and res["status"] == "ok":
             res["status"] = "vacuous"
             res["detail"] = f"witness {wname} is {r}"
         elif r == "sat" and wname == spec.get("sample_witness"):
